@@ -60,3 +60,32 @@ theorem C18_restart_runs_only_uncached (c : ECfg V) (f : Node → Bool) (n : Nod
   simp [seeded]
 
 end VM
+
+namespace VM
+open TM
+variable {V : Type} [PyVal V]
+
+/-- C17 (a): the sync and the async flavour run the same scheduler over the same table; whatever
+    attributes, `max_concurrency` and completion orders the two executions had, if both return they hold
+    the same result on every node (hence return the same value and record the same setup results), and
+    they started exactly the same nodes, each once. -/
+theorem C17a_flavours_agree (c : ECfg V) (hwf : WF c) (a1 a2 : Attrs) {tr1 tr2 vs1 vs2}
+    (h1 : VRun c a1 tr1 vs1) (h2 : VRun c a2 tr2 vs2) (d1 : vs1.st.pc = .done) (d2 : vs2.st.pc = .done) :
+    (∀ n, vs1.ρ n = vs2.ρ n) ∧ (∀ n ∈ c.nodes, (starts tr1).count n = (starts tr2).count n) := by
+  refine ⟨fun n => by rw [C01_core c a1 hwf h1 d1 n, C01_core c a2 hwf h2 d2 n], ?_⟩
+  intro n hn
+  obtain ⟨r1, _⟩ := vrun_sim c a1 hwf h1
+  obtain ⟨r2, _⟩ := vrun_sim c a2 hwf h2
+  have e1 := C03_exactly_once_at_done (cfgD c a1) hwf.1 r1 d1 n hn
+  have e2 := C03_exactly_once_at_done (cfgD c a2) hwf.1 r2 d2 n hn
+  -- activeness under the denotational configuration does not depend on the attributes
+  have hact : (cfgD c a1).active n = (cfgD c a2).active n := rfl
+  cases hb : (cfgD c a1).active n with
+  | true =>
+    rw [(e1.1 hb).1, (e2.1 (by rw [← hact]; exact hb)).1]
+  | false =>
+    have n1 := (e1.2 hb).1
+    have n2 := (e2.2 (by rw [← hact]; exact hb)).1
+    rw [List.count_eq_zero_of_not_mem n1, List.count_eq_zero_of_not_mem n2]
+
+end VM
